@@ -8,7 +8,7 @@
     lr.Parser.Parse / ParseAndBuildAST, for every grammar, table and input. *)
 From Coq Require Import List ZArith.
 From Algo.Grammar Require Import CFG.
-From Algo.C11 Require Import Model ModelPrec ModelSLR Spec Proofs ProofsTerm ProofsOracle ProofsPrec ProofsPrecExpr.
+From Algo.C11 Require Import Model ModelPrec ModelSLR Spec Proofs ProofsTerm ProofsOracle ProofsPrec ProofsPrecExpr ProofsLR0.
 Import ListNotations.
 
 (** Soundness of the driver over any certified table: if [Parse] accepts [w] then [w] is a
@@ -139,6 +139,35 @@ Theorem C11_oracle_complete :
     lang_upto fuel G n = Some l -> L G w -> length w <= n -> mem_str w l = true.
 Proof. intros G fuel n l w. apply lang_upto_complete. Qed.
 
+(** About the modelled LR(0)/SLR construction (compared cell by cell, up to state renumbering,
+    with the tables parser/lr/simple builds, on every run): CLOSURE is extensive and adds only
+    items [B -> . gamma] of the grammar, and every state of the canonical collection has an
+    access string [l] such that the part before the dot of each of its items is a suffix of [l]
+    (so the body of every reduction entered for the state is a suffix of [l]: the labels that
+    [table_ok] asks for exist). *)
+Theorem C11_lr0_closure :
+  forall (ps : list prod) (I : list item) (x : item),
+    (In x I -> In x (closure ps I)) /    (In x (closure ps I) -> In x I \/ (snd x = 0 /\ In (fst x) ps)).
+Proof. intros ps I x. split; [apply closure_incl|apply closure_items]. Qed.
+
+Theorem C11_lr0_access_strings :
+  forall (fuel : nat) (G : gram) (C : list (list item)),
+    canonical fuel G = Some C ->
+    forall I, In I C -> exists l, forall x, In x I ->
+      In (fst x) (prods (augment G)) /\ snd x <= length (body (fst x)) /\
+      exists pre, l = pre ++ firstn (snd x) (body (fst x)).
+Proof.
+  intros fuel G C H I HI.
+  pose proof (canonical_states_have_access_strings fuel G C H) as HF.
+  rewrite Forall_forall in HF. destruct (HF I HI) as [l Hl]. exists l. exact Hl.
+Qed.
+
+(** Witness checker for long sentences: a production sequence accepted by [lm_check] is a
+    leftmost derivation of the string. *)
+Theorem C11_witness_sound :
+  forall (G : gram) (ps : list prod) (w : list nat), lm_check G ps w = true -> L G w.
+Proof. intros G ps w. apply lm_check_sound. Qed.
+
 (** Non-vacuity: the SLR table that parser/lr/simple builds for S -> a b a | S S a
     (a = 0, b = 1, S = 18) accepts "aba" and "abaabaa" and rejects "abaa". *)
 Definition ex_S : nat := 18.
@@ -165,3 +194,6 @@ Print Assumptions C11_oracle_complete.
 Print Assumptions C11_prec_resolve.
 Print Assumptions C11_prec.
 Print Assumptions C11_recognises_partial.
+Print Assumptions C11_lr0_closure.
+Print Assumptions C11_lr0_access_strings.
+Print Assumptions C11_witness_sound.
